@@ -24,8 +24,77 @@ def main():
     print('selftest: virtual loop scenario mismatch: %r' % (res[0],))
   else:
     print('selftest: virtual loop scenario ok')
+  # 3. differential: the same timing-insensitive scenario under real gevent (libev/libuv, real clock,
+  #    times scaled to 20 ms) must produce the same order of events as under the virtual loop
+  import subprocess
+  p = subprocess.run([sys.executable, '-c', _REAL_LOOP_PROG], stdout=subprocess.PIPE, stderr=subprocess.STDOUT,
+                     universal_newlines=True, timeout=60, env={k: v for k, v in os.environ.items() if k != 'GEVENT_LOOP'})
+  real = p.stdout.strip().splitlines()[-1] if p.stdout.strip() else ''
+  virt = common.run_forked(_order_scenario, [0])[0]
+  if 'err' in virt:
+    ok = False
+    print('selftest: virtual-loop scenario failed: %r' % (virt,))
+  elif real != ' '.join(virt['ok']):
+    # real time is subject to machine load: reported, not fatal
+    print('selftest: WARNING real-loop vs virtual-loop order differs (machine load?):\n real: %s\n virt: %s' % (real, ' '.join(virt['ok'])))
+  else:
+    print('selftest: virtual loop agrees with the real gevent loop on the differential scenario (%d events)' % len(virt['ok']))
   os.makedirs(common.EVIDENCE_DIR, exist_ok=True)
   return 0 if ok else 2
+
+
+_SCENARIO_SRC = '''
+def scenario(gevent, U):
+  from gevent.event import Event, AsyncResult
+  from gevent.queue import Queue
+  log = []
+  e = Event(); ar = AsyncResult(); q = Queue()
+  def waiter(n):
+    log.append('w%d:%s' % (n, e.wait(10 * U)))
+  def setter():
+    gevent.sleep(2 * U); log.append('set'); e.set()
+  def timed():
+    log.append('tw:%s' % Event().wait(3 * U))
+  def linker():
+    ar.rawlink(lambda a: log.append('link:%s' % a.value))
+    gevent.sleep(4 * U); ar.set(7); log.append('arset')
+  def consumer():
+    for _ in range(3):
+      log.append('got:%s' % q.get())
+  def producer():
+    for i in range(3):
+      q.put(i); gevent.sleep(0)
+    log.append('produced')
+  def tmo():
+    try:
+      with gevent.Timeout(5 * U):
+        gevent.sleep(50 * U)
+    except gevent.Timeout:
+      log.append('timeout')
+  def killer():
+    g = gevent.spawn(lambda: (gevent.sleep(50 * U), log.append('never')))
+    gevent.sleep(6 * U); g.kill(block=False); gevent.sleep(0); log.append('killed:%s' % g.dead)
+  gs = [gevent.spawn(waiter, 1), gevent.spawn(waiter, 2), gevent.spawn(setter), gevent.spawn(timed),
+        gevent.spawn(linker), gevent.spawn(consumer), gevent.spawn(producer), gevent.spawn(tmo), gevent.spawn(killer)]
+  return log, gs
+'''
+
+_REAL_LOOP_PROG = _SCENARIO_SRC + '''
+import gevent
+log, gs = scenario(gevent, 0.05)
+gevent.joinall(gs, timeout=10)
+print(' '.join(log))
+'''
+
+
+def _order_scenario(_):
+  loop = common.boot()
+  import gevent
+  ns = {}
+  exec(_SCENARIO_SRC, ns)
+  log, gs = ns['scenario'](gevent, 0.02)
+  loop.run_for(5.0)
+  return log
 
 
 _EXPECTED = [['w1', True, 0], ['w2', True, 0], ['late', False, 500], ['timeout', 750], ['sleep', 1000]]
